@@ -8,26 +8,33 @@ Inductive mode := Emit | Check.
 Definition PUnwrapRecovery : nat := 1.   (* recovery.rs: take_alt().unwrap() *)
 Definition PUnwrapMapErr : nat := 2.     (* combinator.rs MapErrWithState: take_alt().unwrap() *)
 Definition PUnwrapInputRef : nat := 4.   (* input.rs InputRef::parse / InputRef::check: take_alt().unwrap() *)
+Definition PLeftRec : nat := 77.          (* memo_strict: a memoized parser re-entered at the position where it is in progress *)
 Definition PProgress : nat := 3.         (* debug_assert!(before != cursor) in loops *)
 
 Inductive outcome := Ok (v : option val) | Err | Panic (site : nat) | OutOfFuel.
 
 (* memo table: (cursor location, parser id) -> None (in progress) | Some e (cached failure, e = the
-   pending error it left, possibly none) *)
-Definition memo_t := list (nat * nat * option (option lerr)).
+   pending error it left, possibly none).  The last component is ghost data (not in the code): the fuel of the run that
+   produced the entry; only the memo_strict machine (a proof device, see [quirks]) reads it. *)
+Definition memo_t := list (nat * nat * option (option lerr) * nat).
 Record st := mkSt { cur : nat; sec : list lerr; alt : option lerr; ust : N; memo : memo_t }.
 
 Fixpoint memo_get (t : memo_t) (p id : nat) : option (option (option lerr)) :=
   match t with
   | [] => None
-  | (q, j, e) :: r => if andb (Nat.eqb p q) (Nat.eqb id j) then Some e else memo_get r p id
+  | (q, j, e, _) :: r => if andb (Nat.eqb p q) (Nat.eqb id j) then Some e else memo_get r p id
+  end.
+Fixpoint memo_fuel (t : memo_t) (p id : nat) : nat :=
+  match t with
+  | [] => 0
+  | (q, j, _, f) :: r => if andb (Nat.eqb p q) (Nat.eqb id j) then f else memo_fuel r p id
   end.
 Fixpoint memo_del (t : memo_t) (p id : nat) : memo_t :=
   match t with
   | [] => []
-  | (q, j, e) :: r => if andb (Nat.eqb p q) (Nat.eqb id j) then memo_del r p id else (q, j, e) :: memo_del r p id
+  | (q, j, e, f) :: r => if andb (Nat.eqb p q) (Nat.eqb id j) then memo_del r p id else (q, j, e, f) :: memo_del r p id
   end.
-Definition memo_put (t : memo_t) (p id : nat) (e : option (option lerr)) : memo_t := (p, id, e) :: memo_del t p id.
+Definition memo_put (t : memo_t) (p id : nat) (e : option (option lerr)) (f : nat) : memo_t := (p, id, e, f) :: memo_del t p id.
 
 Definition on_tok (t : tok) (h : N) : N := ((h * 31 + t + 1) mod 1000003)%N.
 
@@ -67,10 +74,13 @@ Record quirks := mkQ {
   q_memo_take : bool;       (* F5: memoized takes the pending error on failure and replays it at the call position *)
   memo_on : bool;           (* not a defect: whether memoized() uses its table at all; the refinement theorems are
                                stated for the machine without tables, C11 relates the two *)
+  memo_strict : bool;       (* not a defect, a proof device (C11): a visit that finds an entry in progress (left recursion) or a
+                               cached failure without an error returns Panic PLeftRec instead of the cut-off failure, so that the
+                               refinement theorem of the table-using machine can exclude left-recursive runs by their outcome *)
   nested : option nested_t  (* how nested_in runs a parser on the children of a group token (None: not available;
                                the theorems about [go] leave nested_in out, Model/Nested.v ties the knot) *)
 }.
-Definition no_quirks : quirks := mkQ false false false false false false false false false None.
+Definition no_quirks : quirks := mkQ false false false false false false false false false false None.
 
 Section Machine.
 Variable Q : quirks.
@@ -934,17 +944,28 @@ Fixpoint go (n : nat) (m : mode) (g : G) (ctx : env) (s : st) {struct n} : outco
   | MapCtx f a => run m a (with_ctx ctx (ap1 f (cval ctx))) s
   | JustCfg _ => just_go m (val_toks (cval ctx)) s
   | Memo id a =>
-      if negb (memo_on Q) then run m a ctx s else
+      if negb (memo_on Q) then
+        (* the table switched off: what remains of Memoized::go is the shelter - the parser runs on an empty register and
+           its pending error is merged back into the sheltered one *)
+        match run m a ctx (set_alt s None) with
+        | (Err, s1) => (Err, join_alt (set_alt s1 (alt s)) (alt s1))
+        | (Ok v, s1) => (Ok v, join_alt (set_alt s1 (alt s)) (alt s1))
+        | res => res
+        end
+      else
       match memo_get (memo s) (cur s) id with
       | Some (Some (Some (p, e))) =>             (* cached failure with its error *)
+          (* (memo_strict: a hit with less fuel than the cached run had is no answer) *)
+          if andb (memo_strict Q) (Nat.ltb n' (memo_fuel (memo s) (cur s) id)) then (OutOfFuel, s) else
           (Err, alt_err s (if q_memo_take Q then cur s else p) e)
       | Some _ =>                                (* in progress (left recursion) or cached failure without error *)
+          if memo_strict Q then (Panic PLeftRec, s) else
           (Err, alt_ef s [] None (spn (cur s) (cur s)))
       | None =>
-          let s0 := set_memo s (memo_put (memo s) (cur s) id None) in
+          let s0 := set_memo s (memo_put (memo s) (cur s) id None n') in
           if q_memo_take Q then
             match run m a ctx s0 with
-            | (Err, s1) => (Err, set_memo (set_alt s1 None) (memo_put (memo s1) (cur s) id (Some (alt s1))))
+            | (Err, s1) => (Err, set_memo (set_alt s1 None) (memo_put (memo s1) (cur s) id (Some (alt s1)) n'))
             | (Ok v, s1) => (Ok v, set_memo s1 (memo_del (memo s1) (cur s) id))
             | res => res
             end
@@ -952,7 +973,7 @@ Fixpoint go (n : nat) (m : mode) (g : G) (ctx : env) (s : st) {struct n} : outco
             (* shelter: the inner parser runs on an empty register; its pending error is cached and merged back *)
             match run m a ctx (set_alt s0 None) with
             | (Err, s1) =>
-                (Err, set_memo (join_alt (set_alt s1 (alt s)) (alt s1)) (memo_put (memo s1) (cur s) id (Some (alt s1))))
+                (Err, set_memo (join_alt (set_alt s1 (alt s)) (alt s1)) (memo_put (memo s1) (cur s) id (Some (alt s1)) n'))
             | (Ok v, s1) => (Ok v, set_memo (join_alt (set_alt s1 (alt s)) (alt s1)) (memo_del (memo s1) (cur s) id))
             | res => res
             end
